@@ -97,14 +97,19 @@ def fltOk (flt : List (Nat × Option Str)) (n : NameId) : Bool := flt.all (fun k
 def resOk (K : Consts) (users : List Str) (P Q : DB) : Op → Res → Bool
   | .persistent u spq nq _, .nid n =>
     ownedBy Q n.text (some u) && sameQual n spq nq && regText K Q u spq nq == n.text &&
+    n.fmt == some K.persistent &&
     (match regText K P u spq nq with
      | some t0 => n.text == some t0                                        -- stable
      | none => match n.text with | some t => isFresh users P t | none => false)
-  | .transient u _ _ _, .nid n =>
-    ownedBy Q n.text (some u) && (match n.text with | some t => isFresh users P t | none => false)
-  | .getNameid u _ _ _ _, .nid n => ownedBy Q n.text (some u)
-  | .construct u _ _ _ _ _, .nid n => ownedBy Q n.text (some u)
-  | .mapping n0 _ _, .nid n => ownedBy Q n.text (n0.text.bind P.get)
+  | .transient u spq nq _, .nid n =>
+    ownedBy Q n.text (some u) && sameQual n spq nq && n.fmt == some K.transient &&
+    (match n.text with | some t => isFresh users P t | none => false)
+  -- the other issuing calls: an identifier of that user, for the requester (and format) asked for
+  | .getNameid u fmt spq nq _, .nid n => ownedBy Q n.text (some u) && sameQual n spq nq && n.fmt == some fmt
+  | .construct u lf spq pol _ _, .nid n =>
+    ownedBy Q n.text (some u) && normF n.spq == normF (constructSpq spq pol) && n.fmt == constructFmt lf pol
+  | .mapping n0 pol _, .nid n =>
+    ownedBy Q n.text (n0.text.bind P.get) && normF n.spq == normF pol.spq && normF n.fmt == normF pol.fmt
   | .findLocalId n, .user x =>
     (users.all fun u => (held P u).all fun m => m.text != n.text || x == some u) &&
     ((n.text.bind P.get).isSome || x == none)
